@@ -296,12 +296,21 @@ pub fn run_y(line: &str) -> String {
     let nt: u32 = t[2].parse().unwrap_or(1);
     let q: usize = t[3].parse().unwrap_or(1);
     let cap: usize = t[4].parse().unwrap_or(64);
-    let stop: Option<usize> = if t[5] == "-" { None } else { t[5].parse().ok() };
+    // `<stop|->[@K.k]`: the source fails at its K-th read call (1-based) with error kind k
+    let (stop_s, fault) = match t[5].split_once('@') {
+        Some((a, b)) => (a, b.split_once('.').and_then(|(x, y)| Some((x.parse::<usize>().ok()?, y.parse::<usize>().ok()?)))),
+        None => (t[5], None),
+    };
+    let stop: Option<usize> = if stop_s == "-" { None } else { stop_s.parse().ok() };
     let input = match unhex(t[6]) {
         Some(i) => i,
         None => return "bad-case".to_string(),
     };
-    let seq_tail = sequential_tail(&fmt[..2], &input, cap);
+    let seq_tail = sequential_tail(&fmt[..2], &input, cap, fault);
+    // growth requests of the reader behind `read_parallel` (set-level variants only: the per-record functions take a
+    // reader with the default policy type)
+    let grows = Arc::new(std::sync::atomic::AtomicUsize::new(0));
+    let grows2 = grows.clone();
     let mb = max_batch(&fmt[..2], &input, cap);
     OUT_CREATED.store(0, std::sync::atomic::Ordering::SeqCst);
     let (tx, rx) = mpsc::channel();
@@ -318,7 +327,7 @@ pub fn run_y(line: &str) -> String {
                 if fmt.starts_with("fa") {
                     use fasta::Record;
                     let rdr = parallel::ReusableReader::new(
-                        fasta::Reader::with_capacity(std::io::Cursor::new(input), cap).set_policy(seq_io::policy::DoubleUntilLimited::new(pt, pl)),
+                        fasta::Reader::with_capacity(faulty_source(input, fault), cap).set_policy(CountingPolicy(seq_io::policy::DoubleUntilLimited::new(pt, pl), grows.clone())),
                     );
                     parallel::read_parallel(
                         rdr,
@@ -355,7 +364,7 @@ pub fn run_y(line: &str) -> String {
                 } else {
                     use fastq::Record;
                     let rdr = parallel::ReusableReader::new(
-                        fastq::Reader::with_capacity(std::io::Cursor::new(input), cap).set_policy(seq_io::policy::DoubleUntilLimited::new(pt, pl)),
+                        fastq::Reader::with_capacity(faulty_source(input, fault), cap).set_policy(CountingPolicy(seq_io::policy::DoubleUntilLimited::new(pt, pl), grows.clone())),
                     );
                     parallel::read_parallel(
                         rdr,
@@ -393,7 +402,7 @@ pub fn run_y(line: &str) -> String {
                 format!("{} {}", if seen.is_empty() { "-".to_string() } else { seen.join("/") }, tail)
             } else if fmt == "fa" {
                 use fasta::Record;
-                let rdr = fasta::Reader::with_capacity(std::io::Cursor::new(input), cap);
+                let rdr = fasta::Reader::with_capacity(faulty_source(input, fault), cap);
                 let res = parallel::parallel_fasta(
                     rdr,
                     nt,
@@ -420,7 +429,7 @@ pub fn run_y(line: &str) -> String {
                 format!("{} {}", if seen.is_empty() { "-".to_string() } else { seen.join("/") }, tail)
             } else {
                 use fastq::Record;
-                let rdr = fastq::Reader::with_capacity(std::io::Cursor::new(input), cap);
+                let rdr = fastq::Reader::with_capacity(faulty_source(input, fault), cap);
                 let res = parallel::parallel_fastq(
                     rdr,
                     nt,
@@ -455,16 +464,41 @@ pub fn run_y(line: &str) -> String {
         Err(_) => "HANG".to_string(),
     };
     format!(
-        "{} SEQ:{} dc={} mb={}",
+        "{} SEQ:{} dc={} mb={} gr={}",
         r,
         seq_tail,
         OUT_CREATED.load(std::sync::atomic::Ordering::SeqCst),
-        mb
+        mb,
+        grows2.load(std::sync::atomic::Ordering::SeqCst)
     )
 }
 
+/// counts the growth requests a reader makes to its policy
+struct CountingPolicy<P>(P, Arc<std::sync::atomic::AtomicUsize>);
+
+impl<P: seq_io::policy::BufPolicy> seq_io::policy::BufPolicy for CountingPolicy<P> {
+    fn grow_to(&mut self, current_size: usize) -> Option<usize> {
+        self.1.fetch_add(1, std::sync::atomic::Ordering::SeqCst);
+        self.0.grow_to(current_size)
+    }
+}
+
 /// how sequential reading of the same input ends
-fn sequential_tail(fmt: &str, input: &[u8], cap: usize) -> String {
+/// the input behind a source that fails at its K-th read call (whole-buffer reads before that)
+fn faulty_source(input: Vec<u8>, fault: Option<(usize, usize)>) -> crate::util::ScriptedReader {
+    let script = match fault {
+        Some((k, kind)) => {
+            let mut s = vec![crate::util::ReadEv::Data(1 << 20); k.saturating_sub(1)];
+            s.push(crate::util::ReadEv::Fail(kind));
+            s
+        }
+        None => vec![],
+    };
+    crate::util::ScriptedReader::new(input, script, 0, vec![])
+}
+
+fn sequential_tail(fmt: &str, input: &[u8], cap: usize, fault: Option<(usize, usize)>) -> String {
+    let input = faulty_source(input.to_vec(), fault);
     if fmt == "fa" {
         let mut r = fasta::Reader::with_capacity(input, cap);
         loop {
